@@ -125,8 +125,7 @@ def rand_z2_index(
 
     elif subsizes == "minimal":
         # all in zero charge sector
-        d0 = d
-        d1 = 0
+        return sr.BlockIndex(chargemap={0: d}, dual=dual)
 
     else:
         # sizes given explicitly
